@@ -99,6 +99,8 @@ def run_case(case):
 
                 def logb(z):
                     with torch.no_grad():
+                        if not flow._context_used_in_base:      # a base whose methods take no context argument
+                            return base.log_prob(z)
                         return base.log_prob(z, emb.expand(z.shape[0], -1) if emb is not None else None)
                 zg, zw = q.grid_1d(("R",), 20000)
                 pb = torch.exp(logb(zg[:, None]).double())
